@@ -1,6 +1,7 @@
 package c20
 
 import (
+	"errors"
 	"fmt"
 	"io"
 	"net"
@@ -45,7 +46,12 @@ type vconn struct {
 	// stallWrites: the peer does not even drain what is sent (an unbuffered transport, a full
 	// send buffer): every Write blocks until the write deadline or Close ends it
 	stallWrites bool
+	// noDeadlines: a transport without deadline support (a tunnel, a channel-backed conn): every SetDeadline
+	// call answers with an error and changes nothing
+	noDeadlines bool
 }
+
+var errNoDeadlines = errors.New("vconn: deadlines are not supported by this transport")
 
 func newVconn() *vconn {
 	c := &vconn{start: time.Now(), gates: map[string]chan struct{}{}, parked: map[string]bool{}}
@@ -206,6 +212,10 @@ func (c *vconn) setDeadlines(kind string, t time.Time, r, w bool) error {
 	}
 	c.mu.Lock()
 	defer c.mu.Unlock()
+	if c.noDeadlines {
+		c.logf(kind, "%s (refused: no deadline support)", arg)
+		return errNoDeadlines
+	}
 	c.logf(kind, "%s", arg)
 	if r {
 		c.rdl = t
